@@ -44,6 +44,10 @@ func (f *BinaryField) GenEncodeInto() (string, error) {
 
 func (f *BinaryField) GenReadFrom() (string, error) {
 	g := strErrBuf{}
+	g.printlnf("if l > enc.TLNum(reader.Length()-reader.Pos()) {")
+	g.printlnf("// the announced length exceeds what is left to read: do not allocate for it")
+	g.printlnf("return nil, enc.ErrFailToParse{TypeNum: typ, Err: io.ErrUnexpectedEOF}")
+	g.printlnf("}")
 	g.printlnf("value.%s = make([]byte, l)", f.name)
 	g.printlnf("_, err = io.ReadFull(reader, value.%s)", f.name)
 	return g.output()
